@@ -25,6 +25,13 @@ def NPart.isAdv : NPart → Bool
   | .slice _ => false
   | _ => true
 
+/-- `__getitem__` keeps the mode of a slice and of an index list with more than one
+entry (`newsiz`); when nothing is kept the result is a scalar. -/
+def NPart.keeps : NPart → Bool
+  | .slice _ => true
+  | .list l => decide (l.length > 1)
+  | .int _ => false
+
 def NPart.isList : NPart → Bool
   | .list _ => true
   | _ => false
@@ -252,10 +259,7 @@ def getItem [Zero α] (T : Dense α) (key : Key) : Except Reject (ReadOut α) :=
       let ps ← npParts T.shape parts
       let (rshape, src) ← npIndex ps
       let vals := src.map T.get
-      let keeps := ps.any fun p => match p with
-        | .slice _ => true
-        | .list l => decide (l.length > 1)
-        | .int _ => false
+      let keeps := ps.any NPart.keeps
       if keeps then .ok (.tensor ⟨rshape, vals⟩)
       else match vals with
         | [v] => .ok (.scalar v)
